@@ -268,3 +268,92 @@ theorem run_quiet (w : TW) (u : Nat) (evs : List (Nat × Ev)) (hq : ∀ x ∈ ev
       · exact h2 p hp
 
 end RPVerif.Timeout
+
+namespace RPVerif.Timeout
+
+/-! ### an expired deadline is enforced at the next pass -/
+
+theorem insertCt_mem' (e x : Nat × Nat) (l : List (Nat × Nat)) : x ∈ insertCt e l ↔ x = e ∨ x ∈ l := by
+  induction l with
+  | nil => simp [insertCt]
+  | cons y ys ih =>
+    simp only [insertCt]
+    split
+    · simp
+    · simp only [List.mem_cons, ih]
+      constructor
+      · rintro (h | h | h)
+        · right; left; exact h
+        · left; exact h
+        · right; right; exact h
+      · rintro (h | h | h)
+        · right; left; exact h
+        · left; exact h
+        · right; right; exact h
+
+theorem sortCt_mem' (l : List (Nat × Nat)) (x : Nat × Nat) : x ∈ sortCt l ↔ x ∈ l := by
+  induction l with
+  | nil => simp [sortCt]
+  | cons y ys ih =>
+    have : sortCt (y :: ys) = insertCt y (sortCt ys) := rfl
+    rw [this, insertCt_mem', ih]; simp
+
+def SortedCt (l : List (Nat × Nat)) : Prop := l.Pairwise (fun a b => a.2 ≤ b.2)
+
+theorem insertCt_sorted (e : Nat × Nat) (l : List (Nat × Nat)) (h : SortedCt l) : SortedCt (insertCt e l) := by
+  induction l with
+  | nil => simp [insertCt, SortedCt]
+  | cons y ys ih =>
+    simp only [insertCt]
+    have hy := List.pairwise_cons.mp h
+    split
+    · next hle =>
+      refine List.pairwise_cons.mpr ⟨?_, h⟩
+      intro b hb
+      rcases List.mem_cons.mp hb with rfl | hb
+      · exact hle
+      · exact Nat.le_trans hle (hy.1 b hb)
+    · next hgt =>
+      refine List.pairwise_cons.mpr ⟨?_, ih hy.2⟩
+      intro b hb
+      rcases (insertCt_mem' e b ys).mp hb with rfl | hb
+      · omega
+      · exact hy.1 b hb
+
+theorem sortCt_sorted (l : List (Nat × Nat)) : SortedCt (sortCt l) := by
+  induction l with
+  | nil => simp [sortCt, SortedCt]
+  | cons y ys ih => exact insertCt_sorted y _ ih
+
+theorem takeWhile_sorted (l : List (Nat × Nat)) (now : Nat) (h : SortedCt l) (x : Nat × Nat) (hx : x ∈ l) (hlt : x.2 < now) :
+    x ∈ l.takeWhile (fun e => decide (e.2 < now)) := by
+  induction l with
+  | nil => simp at hx
+  | cons y ys ih =>
+    have hy := List.pairwise_cons.mp h
+    rcases List.mem_cons.mp hx with rfl | hx
+    · simp [List.takeWhile_cons, hlt]
+    · have : y.2 < now := Nat.lt_of_le_of_lt (hy.1 x hx) hlt
+      simp only [List.takeWhile_cons, this, decide_true, if_true]
+      exact List.mem_cons_of_mem _ (ih hy.2 hx)
+
+/-- whatever entry the watcher holds after taking in what was handed to it: if its cancel time is a real
+    deadline (nonzero) and lies in the past, this pass cancels the task -/
+theorem pass_enforces (w : TW) (now u ct : Nat) (hm : (u, ct) ∈ w.pending.foldl merge w.table)
+    (h0 : ct ≠ 0) (hlt : ct < now) : u ∈ (pass w now).2 := by
+  simp only [pass, List.mem_map, List.mem_filter]
+  refine ⟨(u, ct), ⟨?_, by simpa using h0⟩, rfl⟩
+  exact takeWhile_sorted _ now (sortCt_sorted _) (u, ct) ((sortCt_mem' _ _).mpr hm) hlt
+
+/-- a task with a startup timeout whose startup is never reported is cancelled at the first pass after
+    the deadline (single task, nothing else registered) -/
+theorem startup_timeout_enforced (t st et now : Nat) (hst : st ≠ 0) (hlt : t + st < now) :
+    (pass (handleTimeout {} t 0 st et) now).2 = [0] := by
+  have : (handleTimeout {} t 0 st et) = { pending := [{ uid := 0, ct := t + st, started := false }] } := by
+    simp [handleTimeout, hst]
+  rw [this]
+  have hne : t + st ≠ 0 := by omega
+  simp [pass, merge, setKey, sortCt, insertCt, hlt]
+  exact ⟨t + st, by simp; intro _; exact hst⟩
+
+end RPVerif.Timeout
